@@ -12,6 +12,7 @@ mod avro;
 mod flight;
 mod ipc;
 mod pq;
+mod replay;
 mod text;
 
 use std::collections::BTreeSet;
@@ -31,6 +32,8 @@ pub struct Sess {
     /// per decode call: bytes offered / bytes consumed
     pub offered: Vec<i64>,
     pub consumed: Vec<i64>,
+    /// per decode call: 1 if the call returned a batch (IPC)
+    pub gave: Vec<i64>,
 }
 
 impl Sess {
@@ -69,7 +72,7 @@ pub fn schema_id(s: &str) -> String {
 }
 
 pub enum Cfg {
-    Ipc,
+    Ipc(Option<ipc::IpcFrame>),
     Csv(text::CsvCfg),
     Json(text::JsonCfg),
     AvroOcf,
@@ -113,7 +116,7 @@ impl Inp {
 
 fn run(inp: &Inp, cuts: &[usize], bs: usize, mode: &str) -> Sess {
     let r = vcore::guarded(|| match &inp.cfg {
-        Cfg::Ipc => ipc::run(inp, cuts, mode),
+        Cfg::Ipc(_) => ipc::run(inp, cuts, mode),
         Cfg::Csv(c) => text::run_csv(inp, c, cuts, bs, mode),
         Cfg::Json(c) => text::run_json(inp, c, cuts, bs, mode),
         Cfg::AvroOcf => avro::run_ocf(inp, cuts, bs),
@@ -130,7 +133,7 @@ fn run(inp: &Inp, cuts: &[usize], bs: usize, mode: &str) -> Sess {
 
 fn oneshot(inp: &Inp, bs: usize) -> Option<Sess> {
     let r = vcore::guarded(|| match &inp.cfg {
-        Cfg::Ipc => Some(ipc::oneshot(inp)),
+        Cfg::Ipc(_) => Some(ipc::oneshot(inp)),
         Cfg::Csv(c) => Some(text::oneshot_csv(inp, c, bs)),
         Cfg::Json(c) => Some(text::oneshot_json(inp, c, bs)),
         Cfg::AvroOcf => Some(avro::oneshot_ocf(inp, bs)),
@@ -160,6 +163,11 @@ const MAX_CALLS: usize = 700;
 
 struct Out {
     t: Shards,
+    /// per-call traces of IPC sessions, validated against the byte-level model (Trace_Ipc.tla)
+    ipc: Shards,
+    ipc_cur: (usize, usize),
+    ipc_limit: usize,
+    ipc_sessions: usize,
     sessions: usize,
     inputs: usize,
     bytes_max: usize,
@@ -183,7 +191,7 @@ impl Out {
             "bodies": bodies,
         }));
     }
-    fn session(&mut self, id: usize, inp: &Inp, bs: usize, cuts: &[usize], mode: &str) {
+    fn session(&mut self, id: usize, inp: &Inp, bs: usize, cuts: &[usize], mode: &str, pick: bool) {
         let s = run(inp, cuts, bs, mode);
         let (off, con) = if s.offered.len() <= MAX_CALLS { (s.offered.clone(), s.consumed.clone()) } else { (vec![], vec![]) };
         let tot: i64 = s.consumed.iter().sum();
@@ -194,6 +202,24 @@ impl Out {
             "batches": batches_json(&s.batches), "schema": schema_id(&s.schema),
             "offered": off, "consumed": con, "ncalls": s.offered.len() as i64, "tot": tot,
         }));
+        if let Cfg::Ipc(Some(f)) = &inp.cfg {
+            if pick && mode == "canon" && s.offered.len() <= MAX_CALLS {
+                if self.ipc_cur.0 != id + 1 {
+                    self.ipc.next_episode();
+                    self.ipc_cur = (id + 1, 0);
+                    let msgs: Vec<Value> = f.msgs.iter().map(|m| json!([m[0], m[1], m[2]])).collect();
+                    self.ipc.emit(json!({"op": "ipcinput", "id": id as i64, "n": inp.n as i64, "msgs": msgs, "legacy": f.legacy,
+                        "eos": f.eos, "extra": f.extra as i64, "full": f.full_len as i64}));
+                }
+                if self.ipc_cur.1 < self.ipc_limit {
+                    self.ipc_cur.1 += 1;
+                    self.ipc_sessions += 1;
+                    self.ipc.emit(json!({"op": "ipcsession", "id": id as i64, "n": inp.n as i64, "cuts": ints(cuts),
+                        "offered": s.offered, "consumed": s.consumed, "gave": s.gave,
+                        "out": if s.ok { "ok" } else { "err" }, "cls": s.cls, "nb": s.batches.len() as i64}));
+                }
+            }
+        }
         self.sessions += 1;
         if !s.ok {
             self.err_sessions += 1;
@@ -251,7 +277,7 @@ fn plan_group(inp: &Inp, rng: &mut Rng, thorough: bool, primary: bool) -> Vec<(V
         }
     }
     // every single split point (two chunks)
-    let budget = if thorough { usize::MAX } else if primary { 420 } else { 60 };
+    let budget = if thorough { usize::MAX } else if primary { 120 } else { 20 };
     if n - 1 <= budget {
         for c in 1..n {
             add(&mut plans, vec![c], "canon");
@@ -274,7 +300,7 @@ fn plan_group(inp: &Inp, rng: &mut Rng, thorough: bool, primary: bool) -> Vec<(V
         }
     }
     // all partitions over a window of interesting positions
-    let k = if thorough { if primary { 10 } else { 6 } } else if primary { 6 } else { 3 };
+    let k = if thorough { if primary { 10 } else { 6 } } else if primary { 6 } else { 2 };
     let mut pool: Vec<usize> = if marks.is_empty() { (1..n).collect() } else { near.iter().copied().collect() };
     if pool.len() > k {
         // a contiguous run of neighbouring positions, placed at random
@@ -307,12 +333,12 @@ fn plan_group(inp: &Inp, rng: &mut Rng, thorough: bool, primary: bool) -> Vec<(V
             let doubled: Vec<usize> = bytewise.iter().flat_map(|c| [*c, *c]).collect();
             add(&mut plans, doubled, "canon");
         }
-        for &m in marks.iter().take(if primary { 12 } else { 3 }) {
+        for &m in marks.iter().take(if primary { 8 } else { 2 }) {
             add(&mut plans, vec![m, m], "canon");
         }
     }
     // random multi-splits
-    let r = if thorough { 40 } else if primary { 8 } else { 3 };
+    let r = if thorough { 40 } else if primary { 6 } else { 2 };
     for _ in 0..r {
         let c = random_cuts(rng, n, inp.allow_empty);
         add(&mut plans, c, "canon");
@@ -323,7 +349,7 @@ fn plan_group(inp: &Inp, rng: &mut Rng, thorough: bool, primary: bool) -> Vec<(V
         if n <= 6000 {
             add(&mut plans, bytewise.clone(), m);
         }
-        let cnt = if thorough { marks.len() } else if primary { 24 } else { 4 };
+        let cnt = if thorough { marks.len() } else if primary { 12 } else { 2 };
         for &c in marks.iter().take(cnt) {
             add(&mut plans, vec![c], m);
         }
@@ -343,11 +369,23 @@ fn plan_group(inp: &Inp, rng: &mut Rng, thorough: bool, primary: bool) -> Vec<(V
 fn main() {
     let args = Args::parse();
     vcore::quiet_panics();
+    if args.driver == "probe-ocf-count" {
+        avro::probe_count();
+        return;
+    }
+    if args.driver == "replay-csv" {
+        replay::replay_csv(args.cases.as_deref().expect("--cases FILE"));
+        return;
+    }
     let mut rng = Rng::new(args.seed ^ 0xC14);
     let thorough = args.thorough();
     let only: Option<String> = args.extra.first().cloned();
     let mut out = Out {
         t: Shards::create(&args.out, "chunk", 14),
+        ipc: Shards::create(&args.out, "ipccall", 6),
+        ipc_cur: (0, 0),
+        ipc_limit: if thorough { 160 } else { 8 },
+        ipc_sessions: 0,
         sessions: 0,
         inputs: 0,
         bytes_max: 0,
@@ -373,17 +411,21 @@ fn main() {
         let prim = id % sizes.len();
         for (bi, &bs) in sizes.iter().enumerate() {
             out.oneshot(id, inp, bs);
-            for (cuts, mode) in plan_group(inp, &mut rng, thorough, bi == prim) {
-                out.session(id, inp, bs, &cuts, mode);
+            let plans = plan_group(inp, &mut rng, thorough, bi == prim);
+            // an even sample of the sessions is also logged call by call (IPC, Trace_Ipc.tla)
+            let stride = (plans.len() / out.ipc_limit).max(1);
+            for (j, (cuts, mode)) in plans.iter().enumerate() {
+                out.session(id, inp, bs, cuts, mode, j % stride == 0);
             }
             out.t.next_episode();
         }
     }
     let per: Vec<String> = out.per_fmt.iter().map(|(k, v)| format!("{}={}", k.replace('-', "_"), v)).collect();
     let (sessions, ninputs, bmax, errs) = (out.sessions, out.inputs, out.bytes_max, out.err_sessions);
-    let events = out.t.finish();
+    let ipc_sessions = out.ipc_sessions;
+    let events = out.t.finish() + out.ipc.finish();
     println!(
-        "DRIVER c14 inputs={ninputs} sessions={sessions} events={events} error_sessions={errs} max_input_bytes={bmax} {}",
+        "DRIVER c14 inputs={ninputs} sessions={sessions} events={events} error_sessions={errs} max_input_bytes={bmax} ipc_call_sessions={ipc_sessions} {}",
         per.join(" ")
     );
 }
